@@ -380,6 +380,16 @@ func (e *env) seedDeployment(dseq uint64, no, np int, mayBeAbsent bool) {
 	}
 	ast := etypes.Account_State(verif_I32("dacct-state"))
 	e.saveAccount(dtypes.EscrowAccountForDeployment(did(dseq)), 0, ast)
+	var seededLeases []mtypes.Lease
+	defer func() {
+		// every lease written is found again under its own id: two leases of one provider in two
+		// groups of a deployment are distinct records (otherwise the pre-state would silently
+		// lose a lease and the step below would be explored from fewer states than intended)
+		for _, l := range seededLeases {
+			got, ok := e.mk.GetLease(e.ctx, l.LeaseID)
+			verif_Assert(ok && got.LeaseID.Equals(l.LeaseID) && got.State == l.State, "C05 every lease has its own record, found under its own id")
+		}
+	}()
 	for g := 1; g <= ng; g++ {
 		norders := 1 + verif_Choice("orders", e.slots(g, no))
 		for o := 1; o <= norders; o++ {
@@ -400,6 +410,7 @@ func (e *env) seedDeployment(dseq uint64, no, np int, mayBeAbsent bool) {
 					lst := mtypes.Lease_State(verif_I32("lease-state"))
 					l := mtypes.Lease{LeaseID: lidG(dseq, g, o, p), State: lst, Price: coin(amount("lease-price")), CreatedAt: e.height("createdAt")}
 					e.rawSetLease(l)
+					seededLeases = append(seededLeases, l)
 					e.savePayment(l.LeaseID, p, etypes.Payment_State(verif_I32("pay-state")), amount("pay-rate"))
 				}
 			}
